@@ -284,6 +284,89 @@ pub fn run(ctx: &mut Ctx) {
     }
   }
 
+  // ---- (A2) as many transfers as one block can hold: bank 1 of a 32 KiB image is 4095 units
+  // `LD (HL),r; INC L; LD (HL),A; DEC L` (HL = 0xFF01, A = 0x81, r one of B C D E = '*', newline,
+  // 'a', 'b'), run three times over: lines of a few thousand bytes, with the newline first, in
+  // the middle, now and then, last, or nowhere. The host side buffers by lines; whatever it
+  // does with them, every byte sent must arrive, in order.
+  let mut long_line_transfers = 0u64;
+  for v in 0..6u64 {
+    let u = unit;
+    unit += 1;
+    if !ctx.mine(u) {
+      continue;
+    }
+    ctx.intent2(u, 6);
+    let mut image = support::make_image(0x00, 0x00, 0x00);
+    for i in 0..image.len() {
+      image[i] = [0x76u8, 0x18, 0xfd, 0x00][i & 3];
+    }
+    let units = (0x7ffc - 0x4000) / 4;
+    let mut rng = Rng::from(&[seed, 0x18a2, v]);
+    for k in 0..units {
+      let newline = match v {
+        0 => k == 0,
+        1 => k == 1500,
+        2 => k % 1100 == 7,
+        3 => false,
+        4 => k + 1 == units,
+        _ => rng.chance(1, 900),
+      };
+      let r: u8 = if newline { 1 } else { [0u8, 2, 3][(k % 3) as usize] };
+      let off = 0x4000 + 4 * k;
+      image[off..off + 4].copy_from_slice(&[0x70 + r, 0x2c, 0x77, 0x2d]);
+    }
+    image[0x7ffc..0x7fff].copy_from_slice(&[0xc3, 0x00, 0x02]); // JP 0x0200
+    // 0x0150: DI; XOR A; LD (C000),A; LD HL,FF01; LD BC,'*' '\n'; LD DE,'a' 'b'; LD A,81; JP 4000
+    let init: [u8; 19] = [0xf3, 0xaf, 0xea, 0x00, 0xc0, 0x21, 0x01, 0xff, 0x01, 0x0a, 0x2a, 0x11, 0x62, 0x61, 0x3e, 0x81, 0xc3, 0x00, 0x40];
+    image[0x0150..0x0150 + init.len()].copy_from_slice(&init);
+    // 0x0200: LD A,(C000); INC A; LD (C000),A; CP 3; LD A,81; JP NZ,4000; HALT; JR -3
+    let again: [u8; 17] = [0xfa, 0x00, 0xc0, 0x3c, 0xea, 0x00, 0xc0, 0xfe, 0x03, 0x3e, 0x81, 0xc2, 0x00, 0x40, 0x76, 0x18, 0xfd];
+    image[0x0200..0x0200 + again.len()].copy_from_slice(&again);
+    support::stamp_header(&mut image, 0x00, 0x00, 0x00);
+    let mut core = support::core_from_image(&image);
+    let mut tr = Tracker { sb: 0, expected: Vec::new(), sc_with_bit7: 0, sc_without_bit7: 0, sb_writes: 0 };
+    let cap = Capture::start(u);
+    let mut overflowed = false;
+    for _ in 0..60_000 {
+      verif::start(false);
+      core.update();
+      verif::stop();
+      overflowed |= verif::overflowed();
+      tr.feed();
+      if core.run_state != crate::emulator::RunState::Run {
+        for _ in 0..50 {
+          core.update();
+        }
+        break;
+      }
+    }
+    let got = cap.finish();
+    if overflowed {
+      ctx.inconclusive("hook ring overflowed within one step of the long-line program");
+      continue;
+    }
+    evaluations += 1;
+    long_line_transfers += tr.sc_with_bit7;
+    t_tot.0 += tr.sc_with_bit7;
+    t_tot.2 += tr.sb_writes;
+    t_tot.3 += got.len() as u64;
+    if tr.expected.len() != 3 * units {
+      ctx.inconclusive(&format!("the long-line program made {} transfers, not {}", tr.expected.len(), 3 * units));
+      continue;
+    }
+    if got != tr.expected {
+      let first = got.iter().zip(tr.expected.iter()).position(|(a, b)| a != b).unwrap_or(got.len().min(tr.expected.len()));
+      let what = if got.len() < tr.expected.len() { "missing-output" } else if got.len() > tr.expected.len() { "extra-output" } else { "different-bytes" };
+      ctx.violation(
+        &format!("C18:{}:{}:thousands-of-transfers-in-one-block", engine, what),
+        &format!("long-line program variant {}: {} transfers (3 x {} in blocks as long as a bank), stdout received {} bytes; first difference at byte {}", v, tr.expected.len(), units, got.len(), first),
+      );
+    }
+    ctx.distinct_key(hash_words(&[6, v]));
+  }
+  ctx.count("long-lines:transfers", long_line_transfers);
+
   // ---- (B) structured programs (handlers, HALT, DMA, bank switches ... with serial snippets)
   let nstruct: u64 = if thorough { 300 } else { 48 };
   for p in 0..nstruct {
